@@ -121,10 +121,10 @@ class _Loc:
             df = df.astype(dtypes)
 
         objectives = self._objectives
-        objectives = objectives[objectives.index.isin(df.columns)].to_numpy()
+        objectives = objectives.loc[df.columns].to_numpy()
 
         weights = self._weights
-        weights = weights[weights.index.isin(df.columns)].to_numpy()
+        weights = weights.loc[df.columns].to_numpy()
 
         return DecisionMatrix(df, objectives, weights)
 
@@ -642,12 +642,10 @@ class DecisionMatrix(DiffEqualityMixin):
             df = df.astype(dtypes)
 
         objectives = self.objectives
-        objectives = objectives[objectives.index.isin(df.columns)].to_numpy(
-            copy=True
-        )
+        objectives = objectives.loc[df.columns].to_numpy(copy=True)
 
         weights = self.weights
-        weights = weights[weights.index.isin(df.columns)].to_numpy(copy=True)
+        weights = weights.loc[df.columns].to_numpy(copy=True)
 
         return DecisionMatrix(df, objectives, weights)
 
